@@ -275,6 +275,7 @@ func Worker(arg string) int {
 	var graph *scheduler.ExecutionGraph
 	var stages []*scheduler.Stage
 	schedDone := make(chan error, 1)
+	atReturn := make([]int32, sc.NR+1)
 	schedRet := make(chan struct{})
 	condScript := filepath.Join(sc.Dir, "cond.sh")
 	cerrStage := 0
@@ -351,7 +352,15 @@ func Worker(arg string) int {
 		sched.VerifSetPause(2 * time.Millisecond)
 		// "done" stages must finish before the others reach their hold points: they have no gate,
 		// the held ones simply take longer; the condition error is injected after all holds are reached.
-		go func() { e := sched.Schedule(graph); close(schedRet); schedDone <- e }()
+		go func() {
+			e := sched.Schedule(graph)
+			// the statuses as they are at the very moment the run returns: nothing may still be Running
+			for i := 1; i <= sc.NR; i++ {
+				atReturn[i] = stages[i].ReadStatus()
+			}
+			close(schedRet)
+			schedDone <- e
+		}()
 		for i := 1; i <= sc.NR; i++ {
 			if sc.Hold[i-1] == "done" {
 				lim := time.Now().Add(15 * time.Second)
@@ -494,6 +503,9 @@ func Worker(arg string) int {
 		}
 		for i := 1; i <= sc.NR; i++ {
 			s := stages[i].ReadStatus()
+			if res.SchedReturned {
+				s = atReturn[i]
+			}
 			res.Runs[i-1].Status = map[int32]string{0: "W", 1: "R", 2: "S", 3: "D", 4: "E", 5: "C"}[s]
 			res.Runs[i-1].Returned = s != scheduler.StatusRunning
 			res.Runs[i-1].Err = s == scheduler.StatusError
